@@ -170,9 +170,7 @@ func (e *Enc) call(site ssa.Instruction, cc *ssa.CallCommon, rt types.Type) Valu
 	}
 
 	if cc.StaticCallee() == nil && !cc.IsInvoke() {
-		if n, ok := cc.Value.Type().(*types.Named); ok {
-			key = "dyn:" + n.Obj().Name()
-		}
+		key = callKeyOf(cc)
 	}
 	e.atCallAsserts(site, key, args, argTypes)
 	e.bumpCallCount(key)
@@ -199,7 +197,7 @@ func (e *Enc) call(site ssa.Instruction, cc *ssa.CallCommon, rt types.Type) Valu
 		return r
 	}
 	kind, ok := defaultExternKind(key)
-	if !ok && e.fc != nil && e.fc.DynNoEffect && (key == "dynamic call" || strings.HasPrefix(key, "dyn:")) {
+	if !ok && e.fc != nil && e.fc.DynNoEffect && (key == "dynamic call" || strings.HasPrefix(key, "dyn:") || strings.HasPrefix(key, "var:")) {
 		kind, ok = "noeffect", true
 		e.assumption("calls through function values in " + e.fnLabel + " are assumed not to touch modelled memory (dyncalls noeffect)")
 	}
@@ -530,6 +528,13 @@ func (e *Enc) havocSpecLoc(ctx *SpecCtx, m Expr, key string) {
 		}
 	}()
 	switch x := m.(type) {
+	case *EIdent:
+		tv := ctx.eval(x)
+		if pt, ok := tv.T.Underlying().(*types.Pointer); ok {
+			e.havocLoc(e.cur, locOfRef(tv.V.(Sc).T, pt.Elem()))
+			return
+		}
+		ctx.fail("modifies: %s is not an addressable global", x.Name)
 	case *ESel:
 		base := ctx.eval(x.X)
 		if gl, ok := ctx.ghostFieldLoc(base, x.F); ok {
@@ -863,6 +868,11 @@ func callKeyOf(cc *ssa.CallCommon) string {
 			}
 		}
 		return f.String()
+	}
+	if u, ok := cc.Value.(*ssa.UnOp); ok {
+		if g, ok := u.X.(*ssa.Global); ok && g.Pkg != nil {
+			return "var:" + g.Pkg.Pkg.Path() + "." + g.Name()
+		}
 	}
 	if n, ok := cc.Value.Type().(*types.Named); ok {
 		return "dyn:" + n.Obj().Name()
